@@ -677,7 +677,7 @@ impl Report {
                     println!("VIOLATION property={} replay={}", self.ctx.prop, p.display());
                     inner.violations.push((k, p));
                     inner.violation_what.push(w);
-                } else {
+                } else if !inner.violations.iter().any(|(_, kept)| *kept == p) {
                     let _ = std::fs::remove_file(&p);
                 }
             }
